@@ -58,6 +58,9 @@ func vfDump(v reflect.Value) string {
 		}
 		return "&" + vfDump(v.Elem())
 	case reflect.Struct:
+		if n := v.Type().Name(); n == "Mutex" || n == "RWMutex" {
+			return "<lock>" // lock state is implied by the threads' positions; it is not data
+		}
 		var s []string
 		for i := 0; i < v.NumField(); i++ {
 			s = append(s, v.Type().Field(i).Name+":"+vfDump(v.Field(i)))
